@@ -31,16 +31,36 @@ type rtCase struct {
 	Msgs []pu.HB `json:"msgs"`
 	// Trace: classify with the reference signer (expensive; a sample in the quick tier)
 	Trace bool `json:"trace,omitempty"`
+	// Fresh: the key comes from dilithium.New() (the library's own randomness; Seed is then what the key reports, for
+	// the record only - a replay draws a new key through the same constructor)
+	Fresh bool `json:"fresh,omitempty"`
 }
 
 func runRT(r *ev.Recorder, c *rtCase) (key, msg string) {
 	r.Pending(c) // a Sign that never returns is a violation too: the driver re-runs the case alone before saying so
 	defer r.Done()
 	d, err := pu.DilKey(c.Seed)
+	if c.Fresh {
+		if d, err = dilithium.New(); err == nil {
+			sd := d.GetSeed()
+			c.Seed = append(pu.HB{}, sd[:]...)
+		}
+	}
 	if err != nil {
 		return "keygen/error", err.Error()
 	}
 	pk := d.GetPK()
+	if c.Fresh {
+		// signing is deterministic for every key the library hands out: the same message signs to the same bytes
+		// (Seal's prefix == Sign and ExtractSignature(Seal) == Sign below depend on it)
+		for i, m := range c.Msgs {
+			s1, e1 := d.Sign(m)
+			s2, e2 := d.Sign(m)
+			if e1 != nil || e2 != nil || s1 != s2 {
+				return "fresh/sign-not-repeatable", fmt.Sprintf("key from dilithium.New(): message %d signed twice gives different signatures (%v %v)", i, e1, e2)
+			}
+		}
+	}
 	var other [dilithium.CryptoPublicKeyBytes]byte
 	if len(c.Msgs) > 0 {
 		od, _ := pu.DilKey(append([]byte{1}, c.Seed[1:]...))
@@ -152,7 +172,7 @@ func lenClass(n int) string {
 
 func TestRoundTrips(t *testing.T) {
 	r := ev.New(t, prop, "TestRoundTrips")
-	r.Rule("rapid: 48-byte seeds (uniform, all-zero, all-0xFF, low entropy) x 4 messages (length 0, 1, SHAKE-rate boundaries 135..137 / 271..273, up to 64 KiB; random and constant content); oracle: Verify(msg,Sign(msg),pk), Open(Seal(msg))==msg, ExtractSignature/ExtractMessage, Seal prefix == Sign, not accepted under another key; a sample of cases is classified by the reference signer's trace; non-trivial = (traced) signature that needed at least one rejection-loop iteration, distinct by (seed,msg)")
+	r.Rule("rapid: 48-byte seeds (uniform, all-zero, all-0xFF, low entropy; one key in 40 comes from dilithium.New() instead and must also sign repeatably) x 4 messages (length 0, 1, SHAKE-rate boundaries 135..137 / 271..273, up to 64 KiB; random and constant content); oracle: Verify(msg,Sign(msg),pk), Open(Seal(msg))==msg, ExtractSignature/ExtractMessage, Seal prefix == Sign, not accepted under another key; a sample of cases is classified by the reference signer's trace; non-trivial = (traced) signature that needed at least one rejection-loop iteration, distinct by (seed,msg)")
 	r.Assume("the number of rejection-loop iterations is taken from the reference signer's trace of the same (seed,msg); C07 establishes that the library walks the same path (byte-identical output)")
 	checks := r.PerShard(r.Pick(5000, 250000))
 	n := 0
@@ -176,6 +196,10 @@ func TestRoundTrips(t *testing.T) {
 				}
 				c.Msgs[i] = m
 			}
+		}
+		if n%40 == 7 {
+			c.Fresh, c.Trace = true, false
+			r.Count("keys_from_dilithium_New", 1)
 		}
 		key, msg := runRT(r, c)
 		r.Sample(map[string]any{"seed": pu.Short(c.Seed), "msg_lens": []int{len(c.Msgs[0]), len(c.Msgs[1]), len(c.Msgs[2]), len(c.Msgs[3])}})
